@@ -3194,7 +3194,10 @@ func genFuncM(p *packages.Package, e entry) (string, error) {
 		}
 		params = append(params[:sp.at], append(fps, params[sp.at:]...)...)
 	}
-	params = fc.extNestedParams(fd, params) // wp dmmirror
+	params, nerr := fc.extNestedParams(fd, params) // wp dmmirror
+	if nerr != nil {
+		return "", nerr
+	}
 	if fc.m.fuelUsed {
 		params = append([]string{"(fuel : Nat)"}, params...)
 	}
